@@ -74,9 +74,19 @@ var verifC05Lens = []int{0, 1, 2, 4, 16, 17, 255, 256, 300}
 
 func VerifC05Sequence() {
 	var h Header
-	verifFixedFields(&h, 0)
-	start := verifCase("start", 0, 3)
+	verifFixedFields(&h, verifPick("cc", []int{0, 2}))
+	start := verifCase("start", 0, 4)
 	switch start {
+	case 4:
+		// a header that decoded a packet with extensions and then one without (X=0):
+		// it reports no extension, and Set on it starts a fresh list
+		prev := []byte{0x90, 0x60, 0, 1, 0, 0, 0, 2, 0, 0, 0, 3, 0xBE, 0xDE, 0, 2, 0x11, 0xA1, 0xA2, 0x20, 0xB1, 0, 0, 0}
+		_, err := h.Unmarshal(prev)
+		verifAssert("C05.reused-setup-1", err == nil && len(h.GetExtensionIDs()) == 2)
+		plain := []byte{0x80, 0x60, 0, 2, 0, 0, 0, 4, 0, 0, 0, 5}
+		_, err = h.Unmarshal(plain)
+		verifAssert("C05.reused-setup-2", err == nil && !h.Extension && len(h.GetExtensionIDs()) == 0)
+		verifCover("C05.reused-header")
 	case 1:
 		h.Extension, h.ExtensionProfile = true, 0xBEDE
 	case 2:
